@@ -311,3 +311,23 @@ Example ex_prune_facility :
   trace_of (run (exec true OPrune9 []) G14) = [1; 2; 3; 4; 5] /\
   prune_nodes G14 = [] /\ all_of_class G14 CNode = [1] /\ type_of G14 1 = T_Facility /\ marked G14 1 = true.
 Proof. vm_compute. repeat split; reflexivity. Qed.
+
+(* G15: node 1 has component 2 with service 3 and dedicated port 4; sub-interface 5 of that port carries a PLAIN link 6
+   (Topology.add_link, no ServicePort) to port 7 of service 8.  Removing the component (or the node) deletes the
+   sub-interface with its port AND the link on the sub-interface; port 7 and service 8 stay.  G15 satisfies the
+   hypothesis WQ of the equation theorems, so "a link is deleted iff it had two ends and lost one" speaks about link 6. *)
+Definition G15 : graph := mkGraph
+  [ mkNode 1 CNode 11 1 false 1; mkNode 2 CComp 12 2 false 1; mkNode 3 CNS 13 3 false 1; mkNode 4 CCP 4 4 false 1;
+    mkNode 5 CCP 5 5 false 1; mkNode 6 CLink 14 6 false 1; mkNode 7 CCP 4 7 false 1; mkNode 8 CNS 13 8 false 1 ]
+  [ mkEdge 1 2 RHas; mkEdge 2 3 RHas; mkEdge 3 4 RConnects; mkEdge 4 5 RConnects; mkEdge 5 6 RConnects;
+    mkEdge 6 7 RConnects; mkEdge 7 8 RConnects ].
+
+Example ex_link_on_subinterface :
+  ok_of (run (exec true (ORemoveComponent 1 2) []) G15) = true /\
+  trace_of (run (exec true (ORemoveComponent 1 2) []) G15) = [2; 3; 4; 5; 6] /\
+  ok_of (run (exec true (ORemoveNode 1) []) G15) = true /\
+  trace_of (run (exec true (ORemoveNode 1) []) G15) = [1; 2; 3; 4; 5; 6] /\
+  type_of G15 5 = T_SubInterface /\ first_neighbor G15 6 RConnects CCP = [5; 7].
+Proof. vm_compute. repeat split; reflexivity. Qed.
+Lemma WQ_G15 : WQ G15.
+Proof. apply wqb_sound. vm_compute. reflexivity. Qed.
